@@ -302,6 +302,16 @@ impl Gen {
                 c += 2;
                 continue;
             }
+            // bits() over any two or three neighbouring columns, whatever they are bound to (wide inputs, expected values):
+            // each entry is one bit, also of a negative argument
+            if self.k.p_bits > 0.0 && c + 1 < plan.header.len() && self.rng.gen_bool(self.k.p_bits * 0.2) {
+                let n = if c + 2 < plan.header.len() && self.rng.gen_bool(0.3) { 3 } else { 2 };
+                let e = self.expr_in(self.k.expr_depth.min(2), Some(plan));
+                let e = if self.rng.gen_bool(0.4) { Expr::bin("-", Expr::num(0), e) } else { e };
+                out.push(Entry::Bits(n, e));
+                c += n as usize;
+                continue;
+            }
             let is_in = plan.col_is_input[c];
             let r: f64 = self.rng.gen();
             let e = if is_in {
